@@ -525,8 +525,9 @@ def int_justified(ctx, q, f, c):
         ok = "string.hexdigits" in src and re.search(r"if len\(code\) != 2 or any\(", src) is not None
         return ok, "two characters validated as hex digits just before" if ok else "`\\xHH` digits reach int(.., 16) unvalidated: ValueError on \"\\xzz\""
     if q == "ParseCtx._convert_binary_string":
-        ok = "if x in string.hexdigits" in ast.unparse(f)
-        return ok, "operates on characters filtered by string.hexdigits"
+        fs = ast.unparse(f)
+        ok = "if x in string.hexdigits" in fs or ("any((x not in string.hexdigits for x in group))" in fs and "raise ValueError" in fs)
+        return ok, "operates on characters validated against string.hexdigits"
     if q.startswith("CodegenCtx.") or q.startswith("ProgramData."):
         return True, "not input-derived text"
     return False, f"`{ast.unparse(c)}` converts possibly input-derived text with no guard and no known terminal justification (ValueError)"
